@@ -67,6 +67,8 @@ func runC15(r *ev.Run) {
 		j := jobs[ci]
 		rng := r.Rng("dataset", j.set) // the same data for every kind of a set
 		N := sizeOf(j.set)
+		// ids: 1..N for even data sets; odd ones carry ids a database would hand out — beyond 2^20, beyond 2^31
+		idBase := []uint32{0, 1<<20 + 7, 0, 3 << 30}[j.set%4]
 		pts := make([][]float32, N)
 		for i := range pts {
 			pts[i] = make([]float32, D)
@@ -142,7 +144,7 @@ func runC15(r *ev.Run) {
 		if j.kind != "hnsw" {
 			train := make([]comet.VectorNode, N)
 			for i := range train {
-				train[i] = *comet.NewVectorNodeWithID(uint32(i+1), cloneF32(pts[i]))
+				train[i] = *comet.NewVectorNodeWithID(idBase+uint32(i+1), cloneF32(pts[i]))
 			}
 			if err := idx.Train(train); err != nil {
 				fail("recall.train", err.Error())
@@ -150,7 +152,7 @@ func runC15(r *ev.Run) {
 			}
 		}
 		for _, i := range order {
-			id := uint32(i + 1)
+			id := idBase + uint32(i+1)
 			if err := idx.Add(*comet.NewVectorNodeWithID(id, cloneF32(pts[i]))); err != nil {
 				fail("recall.add", err.Error())
 				return
@@ -226,9 +228,9 @@ func runC15(r *ev.Run) {
 		var firstID, lastID []uint32
 		for t := 0; t < tenth; t += 3 { // every third vector of each tenth: 100 queries each
 			firstQ = append(firstQ, pts[order[t]])
-			firstID = append(firstID, uint32(order[t]+1))
+			firstID = append(firstID, idBase+uint32(order[t]+1))
 			lastQ = append(lastQ, pts[order[N-tenth+t]])
-			lastID = append(lastID, uint32(order[N-tenth+t]+1))
+			lastID = append(lastID, idBase+uint32(order[N-tenth+t]+1))
 		}
 		useNP := fullProbe > 0 && j.kind == "ivfpq"
 		rf, _, ok1 := measure(firstQ, useNP, fullProbe)
